@@ -89,3 +89,22 @@ def run(ctx, case):
         hitsound_copy(src, tgt)
     except Exception:
         pass
+    if ctx.cur_k is not None and ctx.cur_k % 3 == 0:
+        # the same two chart objects edited in place (same lengths: the sounds of the source rotated over its notes, the
+        # target moved in time) and copied again: nothing may be remembered from the first call
+        with ctx.quiet():
+            try:
+                import numpy as np
+                for lst in (src.hits, src.holds):
+                    if len(lst) > 1:
+                        for f in ("hitsound_set", "hitsound_file", "volume"):
+                            lst.df[f] = np.roll(lst.df[f].to_numpy(), 1)
+                if len(tgt.hits) > 1:
+                    tgt.hits.offset = np.roll(tgt.hits.offset.to_numpy(), 1)
+            except Exception:
+                ctx.counters["c18|edit_failed"] += 1
+                return
+        try:
+            hitsound_copy(src, tgt)
+        except Exception:
+            pass
